@@ -251,6 +251,15 @@ impl Writer {
         checksum.inner_mut().get_mut().sync_all()?;
         let checksum = checksum.checksum();
 
+        // IMPORTANT: fsync folder on Unix, otherwise the blob file may be gone after a crash
+        // although the version (which is fsynced) references it
+
+        #[expect(
+            clippy::expect_used,
+            reason = "if there's no parent folder, something has gone horribly wrong"
+        )]
+        crate::file::fsync_directory(self.path.parent().expect("should have folder"))?;
+
         Ok((metadata, checksum))
     }
 }
